@@ -44,7 +44,9 @@ def rand_hard_constraint(rng, seq, kinds=None):
         d = dict(kind="keep", location=[a, b, rng.choice([-1, 0, 1])])
         if rng.random() < 0.15:
             # a percentage that rounds down to 0 allowed edits: still a hard (enforced) restriction
-            d["max_edits_percent"] = rng.choice([1, 2, 5])
+            pcts = [p for p in (1, 2, 5) if p * (b - a) < 100]
+            if pcts:
+                d["max_edits_percent"] = rng.choice(pcts)
         return d
     if k == "keep_idx":
         idx = sorted(rng.sample(range(n), rng.randint(1, min(4, n))))
